@@ -7,5 +7,5 @@ Extraction "model.ml"
   mkLattice wf_lattice no_self_loops vectors adj_table coordination
   edge_neighbours find_all_plaquettes edges_plaquettes vertices_plaquettes
   all_plaquette_neighbours adjacency_true plaq_list_ok generic_count
-  cinit step run pure_value compute_plaquettes
+  cinit step run pure_value pure_value_of compute_plaquettes
   all_vertex_neighbours all_q_edge_neighbours all_clockwise_about all_edge_vectors all_q_adjacent_plaquettes.
